@@ -127,6 +127,10 @@ pub struct C12;
 const DEFAULT_PREC: u64 = 100;
 /// 2^i 5^j grid: 61 x 31 values x 4 precisions around the exact length x 7 modes
 const GRID: u64 = 61 * 31 * 4 * 7;
+/// 99..9 / 100..01 grid: 60 lengths x 2 forms x 16 precisions x 7 modes
+const GRID2: u64 = 60 * 2 * 16 * 7;
+/// prefix grid: 900 three-digit prefixes x 22 lengths x 3 precisions
+const GRID3: u64 = 900 * 22 * 3;
 
 fn budget(p: u64) -> u64 {
     // quadratic convergence from a relative error <= 0.66: ~log2(5.5 (p+2)) iterations, +2 to see the repeat
@@ -328,6 +332,16 @@ fn gen_x(rng: &mut Rng) -> (Dec, u64) {
             }
             (Dec::new(rng.chance(1, 2), &v.to_str_radix(10), rng.range(-400, 400)), 0)
         }
+        // values that agree with the shortcut constant ONE in their low machine words:
+        // coefficient 10^s + m * 2^(32 j) at scale s (the entry point special-cases is_one / is_zero)
+        7 if rng.chance(1, 3) => {
+            let sc = rng.below(26);
+            let j = 1 + rng.below(4);
+            let hi = if rng.chance(1, 2) { 9 } else { 1_000_000 };
+            let m = 1 + rng.below(hi);
+            let coeff = crate::refdec::pow10(sc) + (BigUint::from(m) << (32 * j as usize));
+            (Dec::new(rng.chance(1, 2), &coeff.to_str_radix(10), sc as i64), 0)
+        }
         // small integers and simple fractions
         7 => {
             let hi = if rng.chance(1, 2) { 100 } else { 100_000 };
@@ -366,7 +380,7 @@ impl Property for C12 {
         "exploration"
     }
     fn runs(&self, tier: Tier) -> u64 {
-        GRID + match tier {
+        GRID + GRID2 + GRID3 + match tier {
             Tier::Quick => 60_000,
             Tier::Thorough => 6_000_000,
         }
@@ -385,6 +399,46 @@ impl Property for C12 {
             let nd = exact_reciprocal(&x.to_ref()).map(|(_, nd)| nd).unwrap_or(1);
             let prec = (nd as i64 - 1 + pk as i64).clamp(1, 150) as u64;
             return Trace { x, prec, mode, via: Via::Ctx, env: EnvSel::All };
+        }
+        if run < GRID + GRID2 {
+            // deterministic enumeration of the reciprocals just above / below a power of ten the property names:
+            // x = 99..9 and 100..01 with k = 1..60 digits/zeros, at 16 precisions placed relative to k, all 7 modes
+            let r = run - GRID;
+            let k = (r % 60) + 1;
+            let nines = (r / 60) % 2 == 0;
+            let ps = (r / 120) % 16;
+            let mode = MODES[((r / (120 * 16)) % 7) as usize];
+            let digits = if nines { "9".repeat(k as usize) } else { format!("1{}1", "0".repeat(k as usize - 1)) };
+            let ki = k as i64;
+            let prec = match ps {
+                0..=4 => ps as i64 + 1,
+                5..=9 => ki - 2 + (ps as i64 - 5),
+                10..=12 => 2 * ki - 1 + (ps as i64 - 10),
+                13 => 100,
+                14 => 3 * ki,
+                _ => ki + 7,
+            }
+            .clamp(1, 150) as u64;
+            let x = Dec::new(rng.chance(1, 2), &digits, rng.range(-20, 20));
+            return Trace { x, prec, mode, via: Via::Ctx, env: EnvSel::All };
+        }
+        if run < GRID + GRID2 + GRID3 {
+            // leading digits x length x small precision: every 3-digit prefix 100..999 x 1..22 digits x p = 1..3
+            // (the magnitudes of the Newton products - and so any machine-word boundary they cross - are a
+            // function of the leading digits of x, its length and p). Native environment only: this grid is
+            // about the arithmetic, the perturbations are exercised everywhere else.
+            let r = run - GRID - GRID2;
+            let prefix = 100 + (r % 900);
+            let nd = ((r / 900) % 22) as usize + 1;
+            let prec = (r / (900 * 22)) % 3 + 1;
+            let mut digits = prefix.to_string();
+            digits.truncate(nd.min(3));
+            while digits.len() < nd {
+                digits.push((b'0' + rng.below(10) as u8) as char);
+            }
+            let mode = *rng.pick(&MODES);
+            let x = Dec::new(rng.chance(1, 2), &digits, rng.range(-25, 25));
+            return Trace { x, prec, mode, via: Via::Ctx, env: EnvSel::One(FloatEnv::Native) };
         }
         let via = if rng.chance(1, 5) { *rng.pick(&VIAS_DEFAULT) } else { Via::Ctx };
         if via != Via::Ctx && rng.chance(1, 2) {
@@ -661,7 +715,7 @@ impl Property for C12 {
         Some(("L1-terminates", 180))
     }
     fn exhaustive_note(&self, _tier: Tier) -> Option<String> {
-        Some("grid: every x = 2^i 5^j (i <= 60, j <= 30; random sign and power-of-ten scale) x precisions {L-1, L, L+1, L+2} around the exact length L of 1/x x all 7 modes is enumerated; per execution the admissible exp2 set is enumerated".into())
+        Some("grids: every 3-digit prefix x 1..22 digits x p = 1..3 (native exp2); every x = 99..9 and 100..01 (1..60 nines / zeros) x 16 precisions placed relative to the length x 7 modes; every x = 2^i 5^j (i <= 60, j <= 30; random sign and power-of-ten scale) x precisions {L-1, L, L+1, L+2} around the exact length L of 1/x x all 7 modes is enumerated; per execution the admissible exp2 set is enumerated".into())
     }
 }
 
